@@ -584,10 +584,11 @@ fn term_tokens_named(
 
 // ---------------------------------------------------------------- printers (C10, C11)
 /// bijective base-26 numeral of n+1 over a..z, written independently of the crate (recursive form)
-fn ref_base26(n: usize) -> String {
+fn ref_base26(n: u128) -> String {
     // names in order: a..z, aa..az, ba.. : the k-th name (k = n) of the length-ordered list
+    // (u128: an index is a usize and the ordinal of a free name is index + number of binder names)
     let mut len = 1usize;
-    let mut count = 26usize;
+    let mut count = 26u128;
     let mut k = n;
     while k >= count {
         k -= count;
@@ -621,9 +622,9 @@ fn ref_print_cla(t: &Term, lam: char) -> String {
             Var(0) => out.push_str("undefined"),
             Var(i) => {
                 if *i <= d {
-                    out.push_str(&ref_base26(d - i)) // the binder i levels up was introduced at depth d-i
+                    out.push_str(&ref_base26((d - i) as u128)) // the binder i levels up was introduced at depth d-i
                 } else {
-                    out.push_str(&ref_base26(m + (i - d) - 1)) // after all binder names
+                    out.push_str(&ref_base26(m as u128 + (i - d) as u128 - 1)) // after all binder names
                 }
             }
             Abs(b) => {
@@ -632,7 +633,7 @@ fn ref_print_cla(t: &Term, lam: char) -> String {
                     out.push('(');
                 }
                 out.push(lam);
-                out.push_str(&ref_base26(d));
+                out.push_str(&ref_base26(d as u128));
                 out.push('.');
                 go(b, P::Top, d + 1, m, lam, out);
                 if p {
@@ -739,8 +740,10 @@ fn printer_universe(ctx: &mut Ctx, max_idx_15: bool) -> Vec<Term> {
         crate::props::Sizes { enum_size: 6, enum_free: 2, n_random: 3000, rand_size: 40 }
     };
     let mut uni = crate::props::universe(ctx, &sz, false);
-    // Display casts indices `as u32` (DESIGN §9: machine-integer wrap is outside the model): keep indices below 2^31
-    uni.retain(|t| !free_vars(t).1 && idx_range(t).map_or(true, |(_, hi)| hi < (1usize << 31)));
+    uni.retain(|t| !free_vars(t).1);
+    if max_idx_15 {
+        uni.retain(|t| idx_range(t).map_or(true, |(_, hi)| hi < (1usize << 31)));
+    }
     // deep binders (names of 2 and 3 letters) and large free indices
     if !max_idx_15 {
         for depth in [26usize, 27, 28, 52, 702, 703, 704] {
@@ -754,6 +757,20 @@ fn printer_universe(ctx: &mut Ctx, max_idx_15: bool) -> Vec<Term> {
         for i in [1usize, 26, 27, 702, 703, 18278, 18279] {
             uni.push(Var(i));
             uni.push(abs(app(Var(i + 1), Var(1))));
+        }
+        // free indices that do not fit in 32 bits (an index is a usize; the names get up to 14 letters): distinct free
+        // variables must keep distinct names, must not collide with binder names, and nothing may overflow
+        let big: [usize; 9] = [(1 << 32) - 1, 1 << 32, (1 << 32) + 1, (1 << 32) + 2, (1 << 33) + 1, (1 << 40) + 3,
+            usize::MAX >> 1, usize::MAX - 1, usize::MAX];
+        for &b in big.iter() {
+            uni.push(Var(b));
+            uni.push(app(Var(b), Var(1)));
+            uni.push(app(Var(1), Var(b)));
+            uni.push(abs(Var(b)));
+            uni.push(abs(app(Var(1), Var(b))));
+            uni.push(app(abs(Var(1)), Var(b)));
+            uni.push(abs!(3, app!(Var(3), Var(b), Var(4), abs(Var(b)))));
+            uni.push(app(Var(b), Var(b - 1)));
         }
     } else {
         // all hex digits, nested operand applications, deep operator chains
